@@ -790,6 +790,15 @@ def _table_merger(ctx, f):
                     dels.append((("var", root_name(e.recv)), e.key))
                 elif e.kind == "pop" and len(e.args) == 1:
                     dels.append((("var", root_name(e.recv)), e.args[0]))
+            # xs = np.delete(xs, i): the same removal for an array
+            for d in du.defs:
+                if d.kind == "assign" and d.node is not None and inside(
+                        d.node, h) and d.name in (ITERS, ROWS, VALS):
+                    t_ = T.of_def(d)
+                    if t_[0] == "call" and t_[1] == "numpy.delete" and \
+                            len(t_[2]) == 2 and t_[2][0][0] == "var" and \
+                            t_[2][0][1] == d.name:
+                        dels.append((("var", d.name), t_[2][1]))
             ok_del = sorted(d[0][1] for d in dels if d[0][1]) == \
                 sorted([ITERS, ROWS, VALS]) and all(
                     d[1] == IDX for d in dels) and len(dels) == 3
@@ -808,6 +817,22 @@ def _table_merger(ctx, f):
     ctx.check(ok_w, "C14b-loop-until-exhausted", f,
               "merge loops until no reader is left",
               f"loop condition is '{ast.unparse(w.test)}'", node=w)
+    # the current scores are kept as they were read: a typed array fixes
+    # its dtype from the first heads, and a later head stored into it is
+    # coerced (a fractional score into an int64 array loses its fraction,
+    # so the selection and the sortedness test use a different value)
+    vinit = [T.of_def(d) for d in du.defs if d.name == VALS
+             and d.kind == "assign" and d.node is not None
+             and not inside(d.node, w)]
+    typed = [t_ for t_ in vinit if t_[0] == "call" and t_[1] in (
+        "numpy.array", "numpy.asarray", "numpy.fromiter", "numpy.empty",
+        "numpy.zeros", "array.array")]
+    ctx.check(bool(vinit) and not typed, "C14b-values-untyped", f,
+              "the comparison values are kept in a list (no dtype coercion "
+              "when a new head is stored)",
+              f"the values are initialised as {[show(t_, 80) for t_ in typed]}"
+              ": storing a later head coerces it to the array's dtype",
+              node=w)
     # row iterators traverse every chunk completely
     # where does each reader's row stream come from?
     inits = [T.of_def(d) for d in du.defs if d.name == ITERS
